@@ -187,6 +187,41 @@ theorem gone_unmarked_witness :
       s.known = false ∧ s.live = 1 ∧ s.run = some Inst.fresh := by
   refine ⟨_, rfl, ?_, ?_, ?_⟩ <;> decide
 
+/-! ## stopping never crashes the operator — false for the daemon killer's loop (finding F11)
+
+  FULL CLAUSE (false of the code): the killer's iteration over `memory.running_daemons` completes.
+  It iterates the live dict across awaits; one entry erased before the last `next()` raises. -/
+
+/-- Any change of the dict's size seen by a `next()` that is still due raises RuntimeError. -/
+theorem killer_iteration_raises (size0 pos sz : Nat) (pre rest : List Nat) (hpre : ∀ x ∈ pre, x = size0)
+    (hdue : pos + pre.length ≤ size0) (hsz : sz ≠ size0) :
+    iterLive size0 pos (pre ++ sz :: rest) = .raised := by
+  induction pre generalizing pos with
+  | nil => simp [iterLive, hsz]
+  | cons x xs ih =>
+    have hx : x = size0 := hpre x (by simp)
+    subst hx
+    have hlt : ¬ x ≤ pos := by simp only [List.length_cons] at hdue; omega
+    simp only [List.cons_append, iterLive, ne_eq, not_true_eq_false, if_false, hlt]
+    exact ih (pos + 1) (fun y hy => hpre y (by simp [hy])) (by simp only [List.length_cons] at hdue; omega)
+
+/-- …while an iteration during which nothing is erased (or over a snapshot, as `stop_daemons` does
+    with `list(daemons.values())`) never raises. -/
+theorem iteration_safe_when_stable (size0 pos : Nat) (sizes : List Nat) (h : ∀ x ∈ sizes, x = size0) :
+    iterLive size0 pos sizes = .finished := by
+  induction sizes generalizing pos with
+  | nil => rfl
+  | cons x xs ih =>
+    have hx : x = size0 := h x (by simp)
+    subst hx
+    simp only [iterLive, ne_eq, not_true_eq_false, if_false]
+    split
+    · rfl
+    · exact ih (pos + 1) (fun y hy => h y (by simp [hy]))
+
+/-- three daemons on one object; the first one stopped has erased itself before the third `next()` -/
+theorem killer_iteration_witness : iterLive 3 0 [3, 3, 2] = .raised := by decide
+
 /-! ## stopping never stalls: the micro-steps of `_timer` -/
 
 /-- With the loop guard (`… and not stopper.is_set()`) in place: from EVERY program point, in EVERY
